@@ -7,6 +7,7 @@ import ast
 from ..cfg import cfg_of
 from ..model import AnalysisError, call_name, calls_in, dotted, norm
 from .. import callgraph, rules
+from .. import conds as cnd
 
 
 def _thread_creations(fn):
@@ -42,10 +43,15 @@ def check_dispatcher(ctx, rule: str, wakeups=True, consumers=True, reconnect=Non
         for field, target, st in creations:
             node = next(n for n in scfg.real_nodes() if n.ast is st)
             joined = f"{field}.join" in stop_names
-            alive_guard = any(f"{field}.is_alive()" in norm(t) or (f"{field} is None" in norm(t)) for t, v in scfg.dominating_conditions(node))
+            def none_alive(n, field=field):
+                """The facts at n say that no thread object exists or the existing one is not alive."""
+                return any((t == f"{field} is None" and p) or (t == f"{field}.is_alive()" and not p) or (t.startswith("ALL[") and f"+{field}.is_alive()" in t.replace("]", ";") and not p)
+                           for t, p in cnd.facts(scfg, n, fn=start.node))
+
+            alive_guard = none_alive(node)
             # a guard only helps if the start() call of that thread is under it as well
             starts = [n for n in scfg.real_nodes() if any(c == f"{field}.start" for c in n.call_names())]
-            start_guarded = all(any(f"{field}.is_alive()" in norm(t) for t, v in scfg.dominating_conditions(n)) for n in starts) if starts else False
+            start_guarded = all(none_alive(n) for n in starts) if starts else False
             ok = joined or (alive_guard and start_guarded)
             ctx.ob(rule, "ProtocolDispatcher.start", ok,
                    f"thread {field} is joined by stop()" if joined else (f"thread {field} is only created while no previous one is alive" if ok else
